@@ -145,3 +145,14 @@ REGISTRY.add(Contract(
     ],
     raises={}, canaries=["result"], replay=None,
     note="True for as long as that very process is in the process table, False ever after"))
+
+
+# --- histories with other psutil calls in between: bounded stand-in --------------------------------------
+from .common import bounded_sweep  # noqa: E402
+HIST = Contract("C02", INIT, "process_iter", env=ENV, name="__init__.is_running-along-histories",
+                ensures=["every handle answers is_running() == True exactly while its own process is listed, whatever "
+                         "process_iter()/is_running()/cache_clear() calls happen in between"],
+                replay="c04:history", note="bounded: enumeration of process-table histories (PIDs 1..3, short histories)")
+BOUNDED_CONTRACTS = [HIST]
+BOUNDED = [bounded_sweep(HIST, "c04:history", quick=1200, thorough=30000)]
+NOT_COVERED.append("interleaved process_iter()/is_running() histories are covered by a bounded enumeration only")
